@@ -23,6 +23,30 @@ Theorem C06_roundtrip_single_partial :
 Proof. exact roundtrip_single. Qed.
 Print Assumptions C06_roundtrip_single_partial.
 
+(* the format left to the tool (multiline = None, the command line's default): as soon as hashes or URLs
+   are written the tool takes the multi-line layout, and every well-formed view is read back - no side
+   condition on the layout at all.  (The rule `hashes or urls` is read from /repo and pinned by
+   C06_gen_constants_ok.) *)
+Theorem C06_roundtrip_default_format :
+  forall o v, o_format o = None -> o_hashes o || o_urls o = true -> wf_view o v = true ->
+  load (write o v) = Ok (erase o v).
+Proof. exact roundtrip_default_format. Qed.
+Print Assumptions C06_roundtrip_default_format.
+
+(* ... and without hashes and URLs the tool writes one line per pin: the one-line guard remains *)
+Theorem C06_roundtrip_default_format_plain_partial :
+  forall o v, o_format o = None -> o_hashes o = false -> o_urls o = false ->
+  wf_view o v = true -> forallb (single_pin_ok o) v = true ->
+  load (write o v) = Ok (erase o v).
+Proof. exact roundtrip_default_format_plain. Qed.
+Print Assumptions C06_roundtrip_default_format_plain_partial.
+
+(* every option set at once: explicit or default format, hashes, urls, annotate *)
+Theorem C06_roundtrip_any_options_partial :
+  forall o v, wf_auto o v = true -> load (write o v) = Ok (erase o v).
+Proof. exact roundtrip_auto. Qed.
+Print Assumptions C06_roundtrip_any_options_partial.
+
 (* the view may be given in any order (pins, requirers, extras): the writer sorts, the loader
    returns the canonical form *)
 Theorem C06_roundtrip_multi_any_order :
@@ -45,19 +69,20 @@ Print Assumptions C06_edges_roundtrip_multi.
 Theorem C06_wf_satisfiable :
   forallb (fun h => forallb (fun u => forallb (fun a => wf_multi (ex_opts true h u a) ex_view) [true; false]) [true; false]) [true; false] = true
   /\ forallb (fun h => forallb (fun a => wf_single (ex_opts false h false a) ex_view) [true; false]) [true; false] = true
+  /\ forallb (fun h => forallb (fun u => forallb (fun a => wf_auto (ex_opts_f None h u a) ex_view) [true; false]) [true; false]) [true; false] = true
   /\ load (write (ex_opts true true true true) ex_view) = Ok ex_view.
-Proof. exact (conj wf_multi_example (conj wf_single_example roundtrip_example)). Qed.
+Proof. exact (conj wf_multi_example (conj wf_single_example (conj wf_auto_example roundtrip_example))). Qed.
 Print Assumptions C06_wf_satisfiable.
 
 Theorem C06_single_urls_refuted :
-  exists o v, wf_multi (mkOpts true (o_hashes o) (o_urls o) (o_annot o) (o_index o) (o_links o)) v = true /\
+  exists o v, wf_multi (mkOpts (Some true) (o_hashes o) (o_urls o) (o_annot o) (o_index o) (o_links o)) v = true /\
               o_multi o = false /\ o_urls o = true /\
               load (write o v) = Err ENotAnnotated.
 Proof. exact single_urls_refuted. Qed.
 Print Assumptions C06_single_urls_refuted.
 
 Theorem C06_single_via_prefix_refuted :
-  exists o v, wf_multi (mkOpts true (o_hashes o) (o_urls o) (o_annot o) (o_index o) (o_links o)) v = true /\
+  exists o v, wf_multi (mkOpts (Some true) (o_hashes o) (o_urls o) (o_annot o) (o_index o) (o_links o)) v = true /\
               o_multi o = false /\ o_urls o = false /\
               load (write o v) = Ok [mkPin "c" "2.0" None None [mkVia "uct" [] "" []]] /\
               edges [mkPin "c" "2.0" None None [mkVia "uct" [] "" []]] <> edges v.
